@@ -218,6 +218,23 @@ def pinned_value(an, e, bb):
     return None
 
 
+def len_minus_const(ctx, f, an, e, bb):
+    """value of `len(X) - c` (plain or checked subtraction) when the length of X is statically known; else None"""
+    e = strip(e)
+    if e.k == "field" and e.a[1] == "0" and e.a[0].k == "binop":
+        e = e.a[0]
+    if not (e.k == "binop" and e.a[0] in ("Sub", "SubWithOverflow", "SubUnchecked")):
+        return None
+    a, b = strip(e.a[1]), strip(e.a[2])
+    c = const_int(b)
+    if c is None or not (a.k == "call" and a.a[0].name == "len" and a.a[1]):
+        return None
+    n = known_len(ctx, f, an, a.a[1][0], bb)
+    if n is None or c > n:
+        return None
+    return n - c
+
+
 def is_enr_ref(t):
     return t.get("k") == "ref" and "Enr<" in (t.get("s") or "")
 
@@ -290,6 +307,9 @@ def discharge(ctx, f, an, site):
                     if 0 <= v < 2**64:
                         return ("const", "arithmetic on the constants %d and %d" % (a, b2))
                 if st.rv.j["op"].startswith("Sub"):
+                    # len(X) - c with X of statically known length >= c (an array field: `self.raw.len() - 2`)
+                    if len_minus_const(ctx, f, an, an.rvalue_expr(st.rv, bb, i), bb) is not None:
+                        return ("const", "a constant subtracted from the length of a fixed-size array that is at least as long")
                     # len(h) - c on a hex string of statically known length
                     v = shapes._ascii_off(("expr", an.rvalue_expr(st.rv, bb, i)), None)
                     if v is not None and v >= 0:
@@ -445,6 +465,10 @@ def discharge(ctx, f, an, site):
         r = shapes.range_of(ix)
         if n is not None and r is not None:
             lo, hi = r
+            if isinstance(lo, tuple):
+                lo_ = len_minus_const(ctx, f, an, lo[1], bb)
+                if lo_ is not None:
+                    lo = lo_
             if isinstance(lo, int) and (hi is None or isinstance(hi, int)):
                 hi2 = n if hi is None else hi
                 if 0 <= lo <= hi2 <= n:
